@@ -86,35 +86,35 @@ type FnInfo struct {
 }
 
 type Exec struct {
-	prog         *ssa.Program
-	lib          *SpecLib
-	prop         string
-	defs         map[string]*Def
-	defOrder     []*Def
-	nfresh       int
-	ncell        int
-	heapEpoch    int
-	obls         []*Obligation
-	fnInfo       map[*ssa.Function]*FnInfo
-	sentinels    map[*ssa.Global]*Term
-	sentinelText map[string]string
-	constGlobals map[*ssa.Global]Val
-	inlined      map[string]bool
-	havocked     map[string]bool
-	usedExtern   map[string]bool
-	warnings     map[string]bool
-	curKey       string
-	curInst      string
-	callOrd      map[string]int
-	paths        int
-	pathBudget   int
-	maxDepth     int
-	errs         []string
-	pkgByName    map[string]*ssa.Package
-	effectsMemo  map[*ssa.Function]*Effects
-	activeGhosts []string
-	maxOps       int
-	callSites    map[string][]string
+	prog          *ssa.Program
+	lib           *SpecLib
+	prop          string
+	defs          map[string]*Def
+	defOrder      []*Def
+	nfresh        int
+	ncell         int
+	heapEpoch     int
+	obls          []*Obligation
+	fnInfo        map[*ssa.Function]*FnInfo
+	sentinels     map[*ssa.Global]*Term
+	sentinelText  map[string]string
+	constGlobals  map[*ssa.Global]Val
+	inlined       map[string]bool
+	havocked      map[string]bool
+	usedExtern    map[string]bool
+	warnings      map[string]bool
+	curKey        string
+	curInst       string
+	callOrd       map[string]int
+	paths         int
+	pathBudget    int
+	maxDepth      int
+	errs          []string
+	pkgByName     map[string]*ssa.Package
+	effectsMemo   map[*ssa.Function]*Effects
+	activeGhosts  []string
+	maxOps        int
+	callSites     map[string][]string
 	platformHints map[string]*Term
 }
 
@@ -168,7 +168,7 @@ func (ex *Exec) pos(p token.Pos) string {
 		return ""
 	}
 	ps := ex.prog.Fset.Position(p)
-	return fmt.Sprintf("%s:%d", strings.TrimPrefix(ps.Filename, "/repo/"), ps.Line)
+	return fmt.Sprintf("%s:%d", strings.TrimPrefix(ps.Filename, repoRoot+"/"), ps.Line)
 }
 
 // ------------------------------------------------------------ function info
